@@ -126,6 +126,7 @@ Outcome execute_plan(Property &prop, const Plan &plan, bool capture)
 	alarm(0);
 	t_lib_active = 0;
 	g_alloc.free_hook = nullptr;
+	g_alloc.alloc_hook = nullptr;
 	Outcome o;
 	o.violated = ctx.failed;
 	o.v = ctx.v;
